@@ -342,6 +342,14 @@ func ruleR12(c *Ctx) {
 					}
 					if be, ok := unparen(ifs.Cond).(*ast.BinaryExpr); ok && leaves && be.Op == token.EQL && isLenCall(fin, be.X) && isLenCall(fin, be.Y) {
 						res = fs
+						// no other way out of the loop to the code after it: a labelled break / goto (e.g. a
+						// timeout case) would let the monitor go on before every start event was observed
+						inspectNoLit(fs.Body, func(z ast.Node) bool {
+							if b, ok := z.(*ast.BranchStmt); ok && (b.Tok == token.GOTO || (b.Tok == token.BREAK && b.Label != nil)) {
+								res = nil
+							}
+							return true
+						})
 					}
 					return true
 				})
